@@ -484,6 +484,12 @@ package zygo
 //@ C01,C13 assert text-is-terminated @before call ParsingIter[0]: len(env.parser.lexer.next) == 1 || (len(env.parser.lexer.next) == 0 && env.parser.lexer.stream != nil && terminated)
 //@ ghost terminated := false @entry
 //@ ghost terminated := true @after call NewInput[0]
+// the parser recurses once per nesting level of the text; a text of a million opening brackets
+// must not exhaust the stack (that kills the process): every descent happens below a fixed depth
+//@ func (*Parser).ParseExpression
+//@ C01 assert nesting-is-bounded @before call ParseList[*]: parser.recur <= 20001
+//@ C01 assert nesting-is-bounded-array @before call ParseArray[*]: parser.recur <= 20001
+//@ C01 assert nesting-is-bounded-infix @before call ParseInfix[*]: parser.recur <= 20001
 // mdef: every target slot is filled with a symbol before the value is compiled; the bind
 // instruction hands each one to BindSymbol, which dereferences it
 //@ func (*Generator).GenerateMultiDef
